@@ -604,6 +604,8 @@ fn fixtures(ctx: &Ctx) -> Vec<String> {
         // what `verify` accepts must also be loadable and displayable in the session
         ("long-label.asm", "#! mrasm ; long names\nthis_is_a_rather_long_label_name_for_the_main_loop_0123456789:\n INC R0 ; count\n JR THIS_IS_A_RATHER_LONG_LABEL_NAME_FOR_THE_MAIN_LOOP_0123456789\n"),
         ("mixed.asm", "#! mrasm\n*STACKSIZE 32\n*PROGRAMSIZE 200\nStart:\n ld r0, 0x10\n .EQU Cell 3\n DEC (Cell) ; memory form\n dec (R0+)\n st (cell), R0\n mov ((PC+)), (r0)\n jmp START\n .DB 1, 2, 3, 4, 5, 6, 7, 8, 9, 10, 11, 12, 13, 14, 15, 16 ; a wide line with a comment\n .DW 65535, 0x0100\n .BYTE 20\nEnd:\n JR end\n"),
+        ("a-program-with-a-really-long-file-name-for-the-info-sidebar.asm", "#! mrasm\nL:\n INC R0\n ST (0xFF), R0\n JR L\n"),
+        ("日本語のとても長いファイル名のプログラム.asm", "#! mrasm\n NOP\n STOP\n"),
         ("unicode-comment.asm", "#! mrasm;日本語 ünïcödé 🎉\n NOP ; ä→ß\n; только комментарий\n STOP\n"),
     ];
     let mut v = vec![];
@@ -614,6 +616,37 @@ fn fixtures(ctx: &Ctx) -> Vec<String> {
     }
     v.push(dir.join("missing.asm").to_string_lossy().to_string());
     v
+}
+
+/// A session that loads a program first and then works with it: clock keys, step-mode and
+/// auto-run toggles, interrupts, resets, `next N`, input changes.
+fn session_script(rng: &mut Rng, id: String, fix: &[String]) -> Script {
+    let mut keys = vec![];
+    let loadable: Vec<&String> = fix.iter().filter(|f| !f.ends_with("bad.asm") && !f.ends_with("missing.asm")).collect();
+    type_line(&mut keys, &format!("load {}", loadable[rng.usize(loadable.len())]));
+    let n = 10 + rng.usize(50);
+    for _ in 0..n {
+        match rng.below(16) {
+            0..=3 => keys.push(Key::Enter),
+            4 | 5 => keys.push(Key::Ctrl('w')),
+            6 | 7 => keys.push(Key::Ctrl('a')),
+            8 => keys.push(Key::Ctrl('e')),
+            9 => keys.push(Key::Ctrl(*rng.pick(&['r', 'l']))),
+            10 | 11 => type_line(&mut keys, &format!("next {}", rng.below(40))),
+            12 => type_line(&mut keys, &format!("FC = {}", rng.u8())),
+            13 => type_line(&mut keys, "show memory"),
+            14 => {
+                // recall an older line and run it again
+                keys.push(Key::Up);
+                if rng.bool() {
+                    keys.push(Key::Up);
+                }
+                keys.push(Key::Enter);
+            }
+            _ => keys.push(Key::Char(*rng.pick(&['x', 'ä', ' ']))),
+        }
+    }
+    Script { id, width: 76 + rng.below(175) as u16, height: 28 + rng.below(73) as u16, keys }
 }
 
 fn random_script(rng: &mut Rng, id: String, fix: &[String]) -> Script {
@@ -761,7 +794,7 @@ pub fn run(ctx: &Ctx) -> Report {
             run_batch(ctx, &scripts, &format!("z{}", w), rep);
             return;
         }
-        let scripts: Vec<Script> = (0..50).map(|k| random_script(&mut rng, format!("r{}_{}", i, k), &fix)).collect();
+        let scripts: Vec<Script> = (0..50).map(|k| if k % 5 == 4 { session_script(&mut rng, format!("r{}_{}", i, k), &fix) } else { random_script(&mut rng, format!("r{}_{}", i, k), &fix) }).collect();
         if i == 24 + 250 {
             rep.sample(obj![("kind", "random script"), ("width", scripts[0].width), ("height", scripts[0].height), ("keys", J::Arr(scripts[0].keys.iter().take(40).map(|k| k.to_json()).collect()))]);
         }
